@@ -12,12 +12,16 @@ Contents
   1. one engine call during the handshake (`engine_call_spec`, `blocked_read_nothing_unflushed`)
   2. one poll of the `handshake` future (`handshake_poll_spec`, `pending_has_wakeup`)
   3. the two-party handshake: invariant, no deadlock, explicit bound (`handshake_completes`)
+  3b. the established stream: `poll_write` / `poll_read` / `poll_close` (plaintext in order, exactly once;
+      close_notify handed over before `Ready`, flushed when the flush is not delayed)
   4. WebSocket: flush before yield, flush order, no item lost
   5. non-vacuity examples
 Defects (F150, F151, the latent `Done` arm) are witnessed in `Cex/C15.lean`; the guards below (`astream = false`
 for the plain transport, `HasSC` for a handshake of at least three flights) are exactly what separates them.
 -/
 import Compio.Lemmas.TlsSys
+import Compio.Lemmas.TlsApp
+import Compio.Lemmas.TlsFuel
 import Compio.Lemmas.WsShim
 
 namespace Compio.Props.C15
@@ -150,6 +154,74 @@ theorem handshake_completes_any_fuel (sc : Sched) (tape : List Side) (post : Nat
     (run n (Sys.init sc false tape post [] [])).2 = .done := by
   obtain ⟨hinv, hphi⟩ := init_inv sc tape post hlim hdir hwf hfuel
   exact (run_done n _ hinv (by omega)).1
+
+/-- the budget of the engine loop is irrelevant: any two values above the number of cells still to be
+processed give the same result (and by `engine_call_no_failure` it is never the out-of-fuel error) -/
+theorem engine_call_fuel_irrelevant (sc : Sched) (f1 f2 : Nat) (o : Ossl) (v : View)
+    (h1 : o.tape.length + o.post < f1) (h2 : o.tape.length + o.post < f2) :
+    sslDoHandshake sc f1 o v = sslDoHandshake sc f2 o v :=
+  sslDoHandshake_fuel_indep sc f1 f2 o v h1 h2
+
+/-! ### 3b. the established stream (native-tls back-end) -/
+
+/-- **`poll_write`**: the accepted plaintext becomes one record which reaches the transport in order and
+exactly once - across any number of `Pending`s (the rest of the record is kept, a retry continues it);
+`Ready(n)` only when the whole record has been handed over; `Pending` has the transport's wake-up; never an
+error or a failed context assertion; the context pointer is cleared again. -/
+theorem tls_write_spec (sc : Sched) (o : Ossl) (v : View) (buf : List UInt8) (ha : App sc v)
+    (hcl : o.close = .none) (hfuel : o.out.length < sc.fuel ∧ recordMax + 22 < sc.fuel) (hbuf : buf ≠ []) :
+    let r := TlsShim.pollWrite sc o v buf
+    App sc r.2.1 ∧ r.1.ctx = false ∧ r.1.close = .none ∧ r.2.1.rx = v.rx ∧
+    committed r.1 r.2.1 = committed o v ++ (if o.out = [] then record (buf.take recordMax) else []) ∧
+    (match r.2.2 with
+      | .ready n => r.1.out = [] ∧ n = (if o.out = [] then (buf.take recordMax).length else o.outPlain)
+      | .pending p => p = .self ∧ r.2.1.own = true
+      | .err => False
+      | .panic => False) :=
+  pollWrite_spec sc o v buf ha hcl hfuel hbuf
+
+/-- **`poll_read`**: the call consumes a prefix of the incoming cells and returns exactly their plaintext, in
+order; `Ok(0)` only for a close_notify; a `Pending` has consumed no plaintext and has its wake-up arranged
+(own waker woken, or registered on the empty pipe). -/
+theorem tls_read_spec (sc : Sched) (o : Ossl) (v : View) (n : Nat) (hn : n ≠ 0) (hh : o.handshaken = true)
+    (hrc : o.rcvdClose = false) :
+    let r := TlsShim.pollRead sc o v n
+    r.1.ctx = false ∧ r.2.1.tx = v.tx ∧ r.2.1.tp.wbuf = v.tp.wbuf ∧
+    ∃ C, v.rxs = C ++ r.2.1.rxs ∧
+      (match r.2.2 with
+        | .ready bs => plainOf C = (bs, r.1.rcvdClose) ∧ bs.length ≤ n ∧ (bs = [] → r.1.rcvdClose = true)
+        | .pending p => plainOf C = ([], false) ∧ (p = .self → r.2.1.own = true) ∧
+            (p = .reg → r.2.1.rx.rwait = true ∧ r.2.1.rxs = [])
+        | .err => True
+        | .panic => False) :=
+  pollRead_spec sc o v n hn hh hrc
+
+/-- **in order, exactly once**: whatever sequence of records the writer has committed (`tls_write_spec`), the
+reader's view of the cells (`tls_read_spec`, over the FIFO pipe) is the concatenation of their plaintexts, then
+that of what follows - e.g. `([], true)` for the close_notify record. -/
+theorem tls_plaintext_in_order (ps : List (List UInt8)) (rest : List Cell) :
+    plainOf ((ps.map record).flatten ++ rest) = (ps.flatten ++ (plainOf rest).1, (plainOf rest).2) :=
+  plainOf_records ps rest
+
+theorem tls_close_notify_plain : plainOf alertRecord = ([], true) := plainOf_alertRecord
+
+/-- **`poll_close`**: `Ready` means the close_notify record has been handed to the transport after everything
+written before; it has *left the endpoint* whenever the flush issued by the engine is not delayed
+(`flushDelay = 0`, or a non-buffering transport) - the guard that separates finding F150: with a delayed
+flush the engine ignores the `Pending` and `poll_close` neither retries nor closes the transport
+(`Cex.C15.f150_alert_stranded`). A `Pending` (partial write of the record) keeps the rest and has its wake-up. -/
+theorem tls_close_spec (sc : Sched) (o : Ossl) (v : View) (ha : App sc v) (hout : o.out = [])
+    (hcl : o.close = .none) (hhs : o.handshaken = true) (hfuel : 24 < sc.fuel) :
+    let r := TlsShim.pollClose sc o v
+    App sc r.2.1 ∧ r.1.ctx = false ∧ r.2.1.tx.closed = false ∧
+    (match r.2.2 with
+      | .ready () => r.1.close = .sent ∧ r.1.out = [] ∧ r.2.1.txs = v.txs ++ alertRecord ∧
+          (flushDelay sc v.tp = 0 → r.2.1.tp.wbuf.toList = [] ∧ r.2.1.tx.q.toList = v.txs ++ alertRecord)
+      | .pending p => p = .self ∧ r.2.1.own = true ∧ r.1.close = .queued ∧
+          committed r.1 r.2.1 = v.txs ++ alertRecord
+      | .err => False
+      | .panic => False) :=
+  pollClose_spec sc o v ha hout hcl hhs hfuel
 
 /-! ### 4. compio-ws: flush before yield, flush order, nothing lost -/
 
